@@ -338,6 +338,7 @@ func init() {
 	add("C01", ruleR20_6)
 	add("C09", ruleR20_6)
 	add("C01", ruleR03_6)
+	add("C02", ruleR05_1)
 	add("C03", ruleR19_1)
 	add("C04", ruleR07_5, ruleR13_3, ruleR14_6)
 	add("C05", ruleR11_2, ruleR06_3)
